@@ -4,7 +4,7 @@ C18 lemmas, layer 9: one call — what a commit through a handle on ANY version 
 invariant by every call.
 -/
 namespace LanceModel.C18
-open LanceModel.Table LanceModel.C17 List
+open LanceModel.Table LanceModel.C17Base List
 
 /-- what a commit through a handle that has read version `v` does: an error leaves the history alone; otherwise one
     manifest is pushed, built on the LATEST manifest from the rebased transaction, which is either the planned append or a
